@@ -7,6 +7,7 @@ mod chain;
 mod common;
 mod overlay;
 mod prefixed;
+mod staking;
 
 fn main() {
     let args: Vec<String> = std::env::args().collect();
@@ -16,6 +17,7 @@ fn main() {
         ("replay", "overlay") => overlay::replay(a(3)),
         ("replay", "prefixed") => prefixed::replay(a(3)),
         ("replay", "chain") => chain::replay(a(3)),
+        ("replay", "staking") => staking::replay(a(3)),
         ("replay", "bank") => bank::replay(a(3)),
         ("drive", "bank") => bank::drive(a(3).parse().unwrap_or(10), a(4).parse().unwrap_or(50), a(5)),
         ("drive", "overlay") => overlay::drive(
